@@ -793,12 +793,18 @@ class Agent(object):
             while not self._stopping.is_set():
                 # Process messages, if any
                 full_msg, t = self._messaging.next_msg(0.05)
-                if full_msg is None:
-                    self._idle = True
-                    if self._shutdown.is_set():
+                if full_msg is None and self._shutdown.is_set():
+                    # Messages may have been posted, and the shutdown
+                    # requested, since the poll above timed out: only stop
+                    # once the queue is really empty.
+                    full_msg, t = self._messaging.next_msg(0)
+                    if full_msg is None:
+                        self._idle = True
                         self.logger.info("No message during shutdown, "
                                          "stopping agent thread")
                         break
+                if full_msg is None:
+                    self._idle = True
                 else:
 
                     current_t = perf_counter()
